@@ -108,9 +108,12 @@ Fixpoint parse_items (ls : list string) : option (list (item string)) :=
       else option_map (cons (Plain l)) (parse_items r)
   end.
 
+(* the lines a written fresh-file element reads back as *)
+Definition vis (l : string) : list string := split_lines (tab4 l).
+
 Definition wf_itemb (it : item string) : bool :=
   match it with
-  | Plain l => negb (is_tag (tab4 l)) && negb (kpfx (kof l))
+  | Plain l => forallb (fun x => negb (is_tag x)) (vis l) && negb (kpfx (kof l))
   | Pair o c => is_tag (tab4 o) && is_tag (tab4 c) && String.eqb (kof (tab4 o)) (kof o)
                  && String.eqb (kof c) (kof o) && kpfx (kof o)
   end.
@@ -125,14 +128,16 @@ Fixpoint nodupb (l : list string) : bool :=
 
 Definition wfb (I : list (item string)) : bool := forallb wf_itemb I && nodupb (spair_keys I).
 
-(* every line is one text line: ends with LF and has no other LF, no CR (the last line may lack its LF) *)
-Definition line_okb (l : string) : bool := canonical l && no_char CR l.
-Fixpoint lines_okb (ls : list string) : bool :=
-  match ls with
+(* shape of the elements of a fresh file: a non-tag element is any chunk of text that is empty or ends with LF
+   (the last element may end anywhere); a tag line is exactly one line; no CR anywhere *)
+Fixpoint items_okb (its : list (item string)) : bool :=
+  match its with
   | [] => true
-  | [l] => (line_okb l || (no_char LF l && no_char CR l && negb (String.eqb l "")))
-  | l :: r => line_okb l && lines_okb r
+  | [Plain l] => no_char CR l
+  | [Pair o c] => canonical o && no_char CR o && last_ok c && no_char CR c
+  | Plain l :: r => no_char CR l && (String.eqb l "" || ends_lf l) && items_okb r
+  | Pair o c :: r => canonical o && no_char CR o && canonical c && no_char CR c && items_okb r
   end.
 
 Definition wf_fresh_file (ls : list string) : bool :=
-  lines_okb ls && match parse_items ls with Some its => wfb its | None => false end.
+  match parse_items ls with Some its => wfb its && items_okb its | None => false end.
